@@ -222,10 +222,14 @@ def run(ctx):
     for vals, nr in zip(vl, nat):
         pairs = inp.subst_pairs(vals)
         got = eval_str(text, pairs)
-        if got != nr.get("config_text") or eval_str(exp, pairs) != nr.get("config_text"):
+        if got != nr.get("config_text"):
             mism += 1
-            res.inconclusive.append("encoding validation mismatch on %r: encoding %r oracle %r native %r"
-                                    % (vals, got, eval_str(exp, pairs), nr.get("config_text")))
+            res.inconclusive.append("encoding validation mismatch on %r: encoding %r native %r" % (vals, got, nr.get("config_text")))
+        elif eval_str(exp, pairs) != py_expected(vals["file"], vals["marker"]):
+            # the two independent formulations of the oracle (SMT scan / python) must agree with each other
+            mism += 1
+            res.inconclusive.append("oracle self-check mismatch on %r: SMT oracle %r python oracle %r"
+                                    % (vals, eval_str(exp, pairs), py_expected(vals["file"], vals["marker"])))
     res.extra["encoding_validation"] = {"cases": len(vl), "mismatches": mism}
     if mism:
         return res
